@@ -5,6 +5,7 @@ mod gen;
 mod lin;
 mod props;
 mod rec;
+mod resp;
 mod shim;
 mod store;
 
